@@ -38,16 +38,21 @@ def sym_topic_actor(ctx, p, n, deleted=None):
                      topics=MapM([(reg, own, ArcTok(p.fresh('own_topic_tok'), 'Topic')), (other_u, oname, ArcTok(p.fresh('other_topic_tok'), 'Topic'))]),
                      next_id=S(p.fresh('t_next'), 'u32')), 'tmgr-state')
     delegate = mk(ctx, 'TopicManagerDelegate', state=ArcCell(Cell(LockM('topic_manager.state', mstate))))
-    actor = mk(ctx, 'TopicActor', info=mk(ctx, 'TopicInfo', name=own), messages=Seq([ArcTok(p.fresh('tm0'), 'TopicMessage')], 1),
+    # `deleted` is tolerated as absent: C11.d decides the double-delete behaviour without naming the flag
+    actor = mk_opt(ctx, 'TopicActor', '', info=mk(ctx, 'TopicInfo', name=own), messages=Seq([ArcTok(p.fresh('tm0'), 'TopicMessage')], 1),
                subscriptions=mp, delegate=delegate, topic_internal_id=S(p.fresh('tid'), 'u32'), next_message_id=S(p.fresh('nmid'), 'u32'),
                deleted=S(dele, 'bool'))
-    p.assume(z3.And(actor.fields[4].t >= 0, actor.fields[4].t < (1 << 32), actor.fields[5].t >= 0, actor.fields[5].t < (1 << 31)))
+    tid_, nmid_ = fld(ctx, actor, 'TopicActor', 'topic_internal_id').t, fld(ctx, actor, 'TopicActor', 'next_message_id').t
+    p.assume(z3.And(tid_ >= 0, tid_ < (1 << 32), nmid_ >= 0, nmid_ < (1 << 31)))
+    if not has_field(ctx, 'TopicActor', 'deleted'):
+        dele = z3.BoolVal(False)
     return Cell(actor, 'topic-actor'), ents, dele, mstate, own, oname, other_u, reg
 
 
 def ta_fields(ctx, actor):
     g = lambda f: fld(ctx, actor, 'TopicActor', f)
-    return {'subs': g('subscriptions'), 'messages': g('messages'), 'deleted': g('deleted').t, 'next': g('next_message_id').t}
+    return {'subs': g('subscriptions'), 'messages': g('messages'), 'deleted': g('deleted').t if has_field(ctx, 'TopicActor', 'deleted') else None,
+            'next': g('next_message_id').t}
 
 
 class TopicHandlers(Obligation):
@@ -97,7 +102,8 @@ class TopicHandlers(Obligation):
                                     z3.And([z3.Implies(z3.And(u, eq_val(name_of(x), name_of(t))), subs2.lookup(name_of(t)).tok == x) for u, x in ents] or [True]))))
             out.append(Claim('others untouched', z3.And([z3.Implies(u, z3.And(subs2.found(name_of(x)), subs2.lookup(name_of(x)).tok == x)) for u, x in ents] or [True])))
             out.append(Claim('count', subs2.count() == z3.Sum([z3.If(u, 1, 0) for u, _ in ents] or [z3.IntVal(0)]) + z3.If(had, 0, 1)))
-            out.append(Claim('messages / deleted / counter unchanged', z3.And(f['deleted'] == res['dele'])))
+            if f['deleted'] is not None:
+                out.append(Claim('messages / deleted / counter unchanged', z3.And(f['deleted'] == res['dele'])))
             out.append(Cover('attach into non-empty topic', z3.And(z3.Not(had), ents[0][0]) if ents else True))
         elif res['which'] == 1:
             nm = res['rm']
@@ -111,7 +117,8 @@ class TopicHandlers(Obligation):
         else:
             was = res['dele']
             tm = fld(ctx, res['mstate'].v, 'State', 'topics', 'topics/topic_manager')
-            out.append(Claim('deleted flag set', f['deleted']))
+            if f['deleted'] is not None:
+                out.append(Claim('deleted flag set', f['deleted']))
             out.append(Claim('first delete: subscriptions and messages cleared, topic unregistered; other topics untouched',
                              z3.Implies(z3.Not(was), z3.And(subs2.count() == 0, f['messages'].n == 0, z3.Not(tm.found(res['own'])),
                                                            tm.found(res['oname']) == res['other_u']))))
@@ -121,6 +128,48 @@ class TopicHandlers(Obligation):
             out.append(Cover('first delete with attached subscriptions', z3.And(z3.Not(was), ents[0][0]) if ents else z3.Not(was)))
             out.append(Cover('second delete', was))
         return out
+
+
+class TopicDeleteTwice(Obligation):
+    id = 'C11.d-delete-recreate-delete'
+    desc = ('TopicActor::delete, then a topic of the same name is created again, then a second Delete reaches the old actor (a handle resolved before the '
+            'first delete): the re-created topic stays registered; subscriptions of the old topic are not re-attached')
+
+    def __init__(self, ctx, n):
+        self.n = n
+        self.bounds = {'attached_subscriptions': n}
+        install_tokens(ctx)
+
+    def body(self, ip, p):
+        ctx = ip.ctx
+        cell, ents, dele, mstate, own, oname, other_u, reg = sym_topic_actor(ctx, p, self.n, deleted=False)
+        fn = ctx.fn('TopicActor', 'delete', hint='topic_actor')
+        r1 = run_to_end(ip.call_fn(fn, [Ref(Loc(cell), True)]))
+        # the name is taken again by a new topic (TopicManager::create_topic, decided in C10.a)
+        newtok = p.fresh('recreated_topic_tok')
+        st = mstate.v
+        tm = fld(ctx, st, 'State', 'topics', 'topics/topic_manager')
+        absent_after_first = z3.Not(tm.found(own))
+        order = ctx.src.struct_fields('State', 'topics/topic_manager')
+        fs = list(st.fields)
+        fs[order.index('topics')] = MapM([(z3.BoolVal(True), own, ArcTok(newtok, 'Topic')), (other_u, oname, ArcTok(p.fresh('other_topic_tok2'), 'Topic'))])
+        mstate.v = Agg(st.name, fs)
+        r2 = run_to_end(ip.call_fn(fn, [Ref(Loc(cell), True)]))
+        return {'cell': cell, 'mstate': mstate, 'own': own, 'oname': oname, 'other_u': other_u, 'newtok': newtok, 'r1': r1, 'r2': r2,
+                'absent_after_first': absent_after_first, 'log': list(p.log)}
+
+    def post(self, ip, p, res):
+        ctx = ip.ctx
+        tm = fld(ctx, res['mstate'].v, 'State', 'topics', 'topics/topic_manager')
+        f = ta_fields(ctx, res['cell'].v)
+        return [Claim('both deletes return Ok', res['r1'].discr == 0 and res['r2'].discr == 0),
+                Claim('the first delete unregisters the topic', res['absent_after_first']),
+                Claim('the re-created topic is still registered under the name after the stale second delete',
+                      z3.And(tm.found(res['own']), tm.lookup(res['own']).tok == res['newtok'])),
+                Claim('other topics untouched', tm.found(res['oname']) == res['other_u']),
+                Claim('the old actor holds no subscriptions (nothing re-attached)', f['subs'].count() == 0),
+                Claim('no request is sent to any subscription', not any(e[0] in ('enqueue', 'spawn', 'joinset.spawn') for e in res['log'])),
+                Cover('reached')]
 
 
 class SubDelete(Obligation):
@@ -182,4 +231,4 @@ class SubDelete(Obligation):
 
 def obligations(ctx, cfg):
     n = 2 if cfg['tier'] == 'quick' else 4
-    return [TopicHandlers(ctx, n), SubDelete(ctx)]
+    return [TopicHandlers(ctx, n), SubDelete(ctx), TopicDeleteTwice(ctx, n)]
